@@ -268,6 +268,7 @@ func cmdCheck(args []string) int {
 		cases = append(cases, nativeCase{Pkg: v.Pkg, ID: id, Harness: v.Harness, Params: v.Params, Inputs: v.Model})
 	}
 	validated, mismatches := 0, 0
+	nativeRetries := 0
 	nativeS := 0.0
 	var results map[string]*nativeResult
 	pkgOf := map[string]string{}
@@ -280,6 +281,39 @@ func cmdCheck(args []string) int {
 		nativeS = time.Since(tn).Seconds()
 		if err != nil {
 			inconclusive = append(inconclusive, "native replay failed: "+err.Error())
+		}
+	}
+	sampleOK := func(s *PathSample, r *nativeResult) bool {
+		if r == nil || !r.Seen || r.Panic != "" || len(r.Fails) > 0 || r.Assume || len(r.Obs) != len(s.obs) {
+			return false
+		}
+		for i := range r.Obs {
+			if r.Obs[i] != s.obs[i] {
+				return false
+			}
+		}
+		nr := append([]string(nil), r.Reach...)
+		sort.Strings(nr)
+		return strings.Join(uniq(nr), ",") == strings.Join(s.Reach, ",")
+	}
+	// the native scheduler and timers are not perfectly repeatable: a sampled path that disagrees
+	// is replayed once more before it counts as a mismatch
+	if pp.Native != "none" && err == nil {
+		var again []nativeCase
+		for _, cs := range cases {
+			if s, ok := byID[cs.ID]; ok && !sampleOK(s, results[cs.ID]) {
+				again = append(again, cs)
+			}
+		}
+		if len(again) > 0 && len(again) <= 20 {
+			if r2, err2 := c.runNative(prog, specs, again, pkgOf, pp.Native); err2 == nil {
+				for id, r := range r2 {
+					if sampleOK(byID[id], r) {
+						results[id] = r
+						nativeRetries++
+					}
+				}
+			}
 		}
 	}
 	for id, s := range byID {
@@ -460,6 +494,7 @@ func cmdCheck(args []string) int {
 			"max_steps_on_a_path":           maxSteps,
 			"step_bound":                    3000000,
 			"replay_mismatches":             mismatches,
+			"native_replays_repeated":       nativeRetries,
 			"inconclusive":                  inconclusive,
 			"timing_s":                      map[string]float64{"load_and_ssa": round3(loadS), "explore": round3(exploreS), "native": round3(nativeS)},
 			"trusted_base":                  []string{"go/ssa", "gosym executor", "z3/cvc5", "stub contracts listed under stubs"},
